@@ -135,6 +135,7 @@ def helper_processors(ctx):
 def check(ctx):
     run = ctx.run
     framework.r1_dispatch(ctx)
+    framework.r1k_dispatch_by_kind(ctx)
     framework.r2_isolation(ctx)
     framework.r3_entrypoints(ctx)
     framework.r4_pairing(ctx)
